@@ -866,6 +866,182 @@ def pipeline_id_hashes_canonical_graph(repo: Repo, R: Report) -> None:
         raise AnalysisError(f"no call of {home_fn} found in the package (execute() computes the pipeline id of pipeline_start)")
 
 
+# ---------------------------------------------------------------------------
+# round 12: D4e - the graph a caller hands to a function that hashes it is the canonicaliser's graph, not a re-encoding
+# ---------------------------------------------------------------------------
+TEXT_PARSERS = {"loads", "load", "safe_load", "full_load", "unsafe_load", "load_all", "safe_load_all", "literal_eval", "eval"}
+VALUE_COPIES = {"dict", "list", "tuple", "OrderedDict", "copy", "deepcopy", "cast", "MappingProxyType"}
+
+
+def _graph_sources(repo: Repo, mod, flow, x: ast.AST, depth: int = 0, seen: Optional[Set[int]] = None) -> List[Tuple[str, ast.AST]]:
+    """Where the value of *x* comes from, structural copies (dict(), list(), .copy(), copy.deepcopy, {**x}, a pickle
+    round trip) looked through: [(kind, expression)] with kind 'param' (a parameter of the function), 'attr' (an
+    attribute of an object the function was handed), 'package' (what a package function returned), 'built' (a container
+    written down here), 'none', 'parsed' (what a parser of text returned: json.loads, yaml.safe_load, literal_eval -
+    with the rendering it was given) or 'opaque' (any other call)."""
+    seen = set() if seen is None else seen
+    out: List[Tuple[str, ast.AST]] = []
+    if id(x) in seen or depth > 8:
+        return out
+    seen.add(id(x))
+    try:
+        leaves = flow.origins(x)
+    except AnalysisError:
+        return [("opaque", x)]
+    for root, rest in sorted(leaves, key=lambda l: (getattr(l[0], "lineno", 0), getattr(l[0], "col_offset", 0), l[1])):
+        if isinstance(root, ast.Constant):
+            out.append(("none", root))
+        elif isinstance(root, ast.Name):
+            out.append(("param" if root.id in flow.params else "built", root))
+        elif isinstance(root, ast.Attribute):
+            out.append(("attr", root))
+        elif isinstance(root, ast.Dict) and not rest:
+            spreads = [v for k, v in zip(root.keys, root.values) if k is None]
+            if not spreads:
+                out.append(("built", root))
+            for v in spreads:
+                out += _graph_sources(repo, mod, flow, v, depth + 1, seen)
+        elif isinstance(root, ast.Call):
+            if rest:  # a part of what the call returned
+                out.append(("package" if _package_targets(repo, mod, root) else "opaque" if (call_attr(root) or "") in TEXT_PARSERS else "built", root))
+                continue
+            nm = call_attr(root) or ""
+            args = list(root.args) + [kw.value for kw in root.keywords]
+            if _package_targets(repo, mod, root):
+                out.append(("package", root))
+            elif nm in VALUE_COPIES and args:
+                src = root.func.value if nm == "copy" and isinstance(root.func, ast.Attribute) and not root.args and (dotted_name(root.func) or "") != "copy.copy" else args[-1] if nm == "cast" else args[0]
+                out += _graph_sources(repo, mod, flow, src, depth + 1, seen)
+            elif nm == "copy" and isinstance(root.func, ast.Attribute) and not args:
+                out += _graph_sources(repo, mod, flow, root.func.value, depth + 1, seen)
+            elif nm in TEXT_PARSERS and (dotted_name(root.func) or "").split(".")[0] in ("pickle", "cPickle", "dill", "cloudpickle") and args:
+                inner = [r0 for r0, rs in flow.origins(args[0]) if not rs and isinstance(r0, ast.Call) and call_attr(r0) == "dumps" and r0.args]
+                if inner:
+                    for r0 in inner:
+                        out += _graph_sources(repo, mod, flow, r0.args[0], depth + 1, seen)
+                else:
+                    out.append(("opaque", root))
+            elif nm in TEXT_PARSERS:
+                out.append(("parsed", root))
+            elif nm in ("get", "pop", "setdefault", "getattr"):
+                out.append(("attr", root))
+            else:
+                out.append(("opaque", root))
+        else:
+            out.append(("built", root))
+    return out
+
+
+def graph_hash_parameters(repo: Repo) -> List[Tuple[str, str, ast.AST, str]]:
+    """(file, function, def, parameter): the package functions that hash (a structural copy of) one of their own
+    parameters into the pipeline id - found from the calls of the function that produces the id."""
+    from .c04_rest import flow_of
+
+    out: List[Tuple[str, str, ast.AST, str]] = []
+    sinks = pipeline_id_sinks(repo)
+    todo: List[Tuple[str, str]] = []
+    for tf0, _pn0, _d0 in sinks:
+        todo += [fq for fq in callers_of(repo, tf0) if fq not in todo]
+    for rel, qn in todo:
+        if True:
+            try:
+                flow = flow_of(repo, rel, qn)
+            except (AnalysisError, RecursionError):
+                continue
+            mod = repo.module(rel)
+            f0 = repo.func(rel, qn)
+            for c in calls_in(flow.fn):  # (the normal form: a private wrapper of the same module may already be inlined)
+                resolved = _package_targets(repo, mod, c)
+                tf, pn = next(((s0, p0) for s0, p0, _d in sinks if any(t is s0 for _tm, t in resolved)), (None, ""))
+                if tf is None:
+                    continue
+                x = dict(_bind_args(tf, c)).get(pn)
+                if x is None:
+                    continue
+                for kind, e in _graph_sources(repo, mod, flow, x):
+                    if kind == "param" and e.id not in ("self", "cls") and not any(f0 is o[2] and e.id == o[3] for o in out) and not any(f0 is s and e.id == p for s, p, _x in sinks):
+                        out.append((rel, qn, f0, e.id))
+    return out
+
+
+def hashed_graph_is_handed_over_as_built(repo: Repo, R: Report) -> None:
+    """C04-D4e: interface between the owner of the canonical graph (Pipeline) and the function that hashes it at run
+    time (the orchestrator's execute): the argument is the canonicaliser's graph or a structural copy of it."""
+    from .c04_rest import flow_of
+
+    r = R.rule("C04-D4e-hashed-graph-handed-over-as-built", "wherever the package hands a graph to a function that hashes that parameter into the pipeline id (the orchestrator's execute(canonical_spec=..)), the argument is - by value - what the canonicaliser returned / what the caller was given / what the object stored at construction, possibly through structural copies (dict(), list(), .copy(), copy.deepcopy, {**x}): never the result of parsing a text rendering of it (json.loads(json.dumps(x)), a YAML round trip, literal_eval(repr(x))).  A text round trip is not the identity on the canonical graph - mapping keys that are not strings come back as strings (2 < 10 but '10' < '2' under sort_keys), tuples as lists - so the pipeline id attached to pipeline_start would differ from compute_pipeline_id(pipeline.canonical_spec) / of a freshly built graph for the same configuration", 1)
+    hashers = graph_hash_parameters(repo)
+    if not hashers:
+        raise AnalysisError("no package function hashes one of its parameters into the pipeline id (execute(canonical_spec=..) expected)")
+    n = 0
+
+    def judge(rel: str, qn: str, mod, flow, x: ast.AST, label: str, line: int, depth: int = 0) -> None:
+        nonlocal n
+        srcs = _graph_sources(repo, mod, flow, x)
+        parsed = [e for k, e in srcs if k == "parsed"]
+        opaque = [e for k, e in srcs if k == "opaque"]
+        if opaque and not parsed:
+            raise AnalysisError(f"{qn}: the graph handed to a pipeline-id hashing function comes from `{norm(opaque[0])[:60]}` - not the canonicaliser, a copy, or a parser (unknown shape)")
+        n += 1
+        R.check(not parsed, r, rel, qn, label,
+                f"`{norm(x)[:50]}` is what `{norm(parsed[0])[:70]}` parsed out of a text rendering, not the canonical graph (or a structural copy of it): the round trip turns non-string mapping keys into strings (and tuples into lists), sort_keys then orders them differently, and the pipeline id announced on pipeline_start is no longer compute_pipeline_id of the graph the Pipeline object holds / a fresh build gives (e.g. a parameter mapping with keys 2 and 10)" if parsed else "", line)
+        if parsed or depth >= 2:
+            return
+        # an attribute of the receiver: every value the class stores there is judged the same way
+        for k, e in srcs:
+            if k != "attr" or not (isinstance(e, ast.Attribute) and isinstance(e.value, ast.Name) and e.value.id in ("self", "cls")):
+                continue
+            cls_qn = qn.rsplit(".", 1)[0] if "." in qn else None
+            cls = mod.defs.get(cls_qn) if cls_qn else None
+            if not isinstance(cls, ast.ClassDef):
+                continue
+            for m in [b for b in cls.body if isinstance(b, FuncNode)]:
+                if not any(isinstance(t, ast.Attribute) and t.attr == e.attr and isinstance(t.ctx, ast.Store) for t in ast.walk(m)):
+                    continue
+                mqn = f"{cls_qn}.{m.name}"
+                try:
+                    mflow = flow_of(repo, rel, mqn)
+                except (AnalysisError, RecursionError):
+                    continue
+                for st in walk_no_nested(mflow.fn):
+                    tg = st.targets if isinstance(st, ast.Assign) else [st.target] if isinstance(st, ast.AnnAssign) and st.value is not None else []
+                    for t in tg:
+                        if isinstance(t, ast.Attribute) and t.attr == e.attr and isinstance(t.value, ast.Name) and t.value.id == e.value.id:
+                            judge(rel, mqn, mod, mflow, st.value, f"{norm(st)[:80]} [stored for the run-time hashing]", st.lineno, depth + 1)
+
+    names = {f0.name for _rel, _qn, f0, _p in hashers}
+    for mod, qn, f in repo.all_functions():
+        if mod.rel.startswith("semantiva/examples/") or not any(nm in mod.source for nm in names):
+            continue
+        if "." in qn and not isinstance(getattr(f, "_parent", None), ast.ClassDef):
+            continue
+        hits = [c for c in calls_in(f, include_nested=True) if call_attr(c) in names]
+        if not hits:
+            continue
+        try:
+            flow = flow_of(repo, mod.rel, qn)
+        except (AnalysisError, RecursionError, KeyError):
+            continue
+        for c in calls_in(flow.fn):
+            if call_attr(c) not in names:
+                continue
+            resolved = _package_targets(repo, mod, c)
+            if not resolved and isinstance(c.func, ast.Attribute):
+                try:
+                    resolved = [(tm, tf) for tm, tf in repo.resolve_call_by_name(c) if isinstance(tf, FuncNode)]
+                except AnalysisError:
+                    resolved = []
+            for _hrel, _hqn, hf, hp in hashers:
+                if not any(tf is hf or (tf.name == hf.name and hp in {a.arg for a in tf.args.posonlyargs + tf.args.args + tf.args.kwonlyargs}) for _tm, tf in resolved):
+                    continue
+                x = dict(_bind_args(hf, c)).get(hp)
+                if x is None:
+                    continue
+                judge(mod.rel, qn, mod, flow, x, f"{norm(c.func)[:40]}(.. {hp}={norm(x)[:40]} ..)", c.lineno)
+    if n == 0:
+        raise AnalysisError("no call site in the package hands a graph to the run-time pipeline-id hashing function (Pipeline -> execute(canonical_spec=..) expected)")
+
+
 def _leaf_text(leaf) -> str:
     from .c04_rest import _show_leaf
 
@@ -894,6 +1070,7 @@ def run(repo: Repo, R: Report) -> None:
     no_mutation_of_node_configs(repo, R)
     write_backs_absorbed(repo, R, no_mutation_by_callees(repo, R))
     pipeline_id_hashes_canonical_graph(repo, R)
+    hashed_graph_is_handed_over_as_built(repo, R)
     from . import c04_rest
 
     c04_rest.run(repo, R)
